@@ -58,7 +58,7 @@ M = [
  ("C10_error_list_capped", "C10", "internal/cmd/cmd_build.go", "\t\t\tfor i, err := range grouperror.Collection(err) {\n", "\t\t\tfor i, err := range grouperror.Collection(err) {\n\t\t\t\tif i >= 20 {\n\t\t\t\t\tbreak\n\t\t\t\t}\n", "one_numbered_line"),
  ("C11_call_null_elements_accepted", "C11", "internal/pkg/input/input_call.go", "\tif len(z) >= 3 {\n\t\tif i, ok := z[2].(bool); !ok {", "\tif len(z) >= 3 && z[2] != nil {\n\t\tif i, ok := z[2].(bool); !ok {", "UnmarshalYAML"),
  ("C18_version_number_accepted", "C18", "internal/pkg/input/input_version.go", "\tvs, ok := val.(string)\n\tif !ok {\n\t\treturn errors.New(\"it must be a string\")\n\t}\n", "\tvs, ok := val.(string)\n\tif !ok {\n\t\tvs = \"0.0.0\"\n\t}\n", "UnmarshalYAML"),
- ("C06_graph_filters_dependencies_in_place", "C06", "internal/pkg/output/output_graph.go", "\tfor _, p := range o.Params {\n", "\tfor _, p := range o.Params {\n\t\tkept := p.DependsOn[:0]\n\t\tfor _, d := range p.DependsOn {\n\t\t\tif d != p.Name {\n\t\t\t\tkept = append(kept, d)\n\t\t\t}\n\t\t}\n\t\t_ = kept\n", "slices-received-by-value"),
+ ("C06_graph_filters_dependencies_in_place", "C06", "internal/pkg/output/output_graph.go", "\tfor _, p := range o.Params {\n", "\tfor _, p := range o.Params {\n\t\tkept := p.DependsOn[:0]\n\t\tfor _, d := range p.DependsOn {\n\t\t\tif d != p.Name {\n\t\t\t\tkept = append(kept, d)\n\t\t\t}\n\t\t}\n\t\t_ = kept\n", "received-by-value"),
  ("C14_imports_not_pruned", "C14", "internal/pkg/template/code_formatter.go", "\tr, err = imports.Process(\"\", r, nil)\n", "\tif len(r) > 1<<20 {\n\t\tr, err = imports.Process(\"\", r, nil)\n\t}\n", "Format"),
  ("C08_output_path_made_absolute", "C08", "internal/cmd/runner/step_code_generator.go", None, None, ""),
 ]
